@@ -526,6 +526,11 @@ static void print_tokens(Token *tok) {
     else if (prev && !at_bol && may_fuse(prev, tok))
       fprintf(out, " ");
     fprintf(out, "%.*s", tok->len, tok->loc);
+
+    // A backslash token at the end of a line would be read back as a
+    // line continuation. A blank after it keeps it a token.
+    if (equal(tok, "\\") && (tok->next->at_bol || tok->next->kind == TK_EOF))
+      fprintf(out, " ");
     prev = tok;
     line++;
   }
